@@ -20,13 +20,13 @@ def run(ctx):
     batches = []
     # exhaustive small scope: every ordering of update / runs of three jobs / writes / structural changes
     batches.append(("frame-orderings-exhaustive", vc.gen_frame_orderings(rng, 4 if ctx.thorough else 3)))
-    n_rand = 9000 if ctx.thorough else 420
+    n_rand = 16000 if ctx.thorough else 420
     hs = []
     for _ in range(n_rand):
         t, _h = vc.gen_history(rng, rng.randint(20, 220 if ctx.thorough else 70))
         hs.append(t)
     batches.append(("random-histories", hs))
-    batches.append(("quiescence-shaped", vc.gen_quiescence(rng, 1500 if ctx.thorough else 80)))
+    batches.append(("quiescence-shaped", vc.gen_quiescence(rng, 3000 if ctx.thorough else 80)))
 
     s = vc.run_check(ctx, "C07", os.path.join(vlib.VERIF, "corpus", "C07"), batches, "c07")
     st = s["stats"]
